@@ -114,6 +114,14 @@ pub fn triggers(src: &str, root: &SyntaxNode) -> Vec<&'static str> {
             K::BlockComment if f.node.text().chars().any(|c| syn::is_nl(c) && c != '\n') => add("R37"),
             // R24 (second form): a `;` that terminates embedded code inside math
             K::Semicolon if in_math[i] && f.parent_idx.is_some_and(|p| flat[p].node.children().any(|c| c.kind() == K::Hash)) => add("R24"),
+            // R11 (markup form): a `\` line break whose trailing blank is an edge blank of an item body
+            // directly before `]` is glued to the bracket (`#[+ \ ]` -> `#[+ \]`)
+            K::Linebreak if !in_math[i] => {
+                let next = leaves[li + 1..].iter().map(|&j| &flat[j]).find(|g| g.node.kind() != K::Space);
+                if next.is_some_and(|n| matches!(n.node.kind(), K::RightBracket | K::Star | K::Underscore)) {
+                    add("R11");
+                }
+            }
             K::Linebreak if in_math[i] => {
                 let next = leaves[li + 1..].iter().map(|&j| &flat[j]).find(|g| g.node.kind() != K::Space);
                 if let Some(n) = next {
